@@ -346,6 +346,11 @@ func (x *Exec) pkgObject(env *Env, pkgPath, name string) (Val, bool) {
 }
 
 func (x *Exec) evalSel(env *Env, e *SExpr) Val {
+	if e.X.K == "ident" {
+		if v, ok := env.vars[e.X.Name+"."+e.Name]; ok {
+			return v
+		}
+	}
 	// package-qualified name
 	if e.X.K == "ident" {
 		if _, isVar := env.vars[e.X.Name]; !isVar {
@@ -724,6 +729,36 @@ func (x *Exec) evalCall(env *Env, e *SExpr) Val {
 	case "typeis":
 		v := arg(0)
 		return mathVal(Eq(v.L[0], x.E.typeTagByName(env.pkgPath, e.Args[1].String())))
+	case "same":
+		a, b := arg(0), arg(1)
+		if len(a.L) != len(b.L) {
+			x.evalFail("same(): different shapes")
+		}
+		var es []*Term
+		for i := range a.L {
+			es = append(es, Eq(a.L[i], b.L[i]))
+		}
+		return mathVal(And(es...))
+	case "string":
+		v := arg(0)
+		if isString(v.T) {
+			return v
+		}
+		// (in specifications only the identity of the string matters; its
+		// content axioms are not added to the path condition)
+		_, m := x.byteMem(env.st)
+		return Val{T: types.Typ[types.String], L: []*Term{App("str.of", IntS, Select(m, v.L[0]), v.L[1], v.L[2]), x.idxConst(0), v.L[2]}}
+	case "mapHas", "mapGet":
+		m := arg(0)
+		mt, ok := m.T.Underlying().(*types.Map)
+		if !ok {
+			x.evalFail("%s on non-map", name)
+		}
+		val, present := x.mapRead(env.st, m, mt, arg(1))
+		if name == "mapHas" {
+			return mathVal(present)
+		}
+		return val
 	case "bytesEq":
 		a, b := arg(0), arg(1)
 		return mathVal(x.seqEq(env.st, a, b))
